@@ -38,6 +38,13 @@ fn judge(out: &SelOut, allowed: &Allowed) -> Result<(), String> {
             if allowed.errs.is_empty() {
                 Err(format!("no error is documented for this configuration, got {text}"))
             } else if toks.iter().any(|t| allowed.errs.contains(t)) {
+                // the tournament-size error names the tournament size and the population size
+                if let Some((k, n)) = allowed.sizes {
+                    let numbers: Vec<usize> = text.split(|c: char| !c.is_ascii_digit()).filter_map(|t| t.parse().ok()).collect();
+                    if !(numbers.contains(&k) && numbers.contains(&n)) {
+                        return Err(format!("the error must carry tournament size {k} and population size {n}, got {text}"));
+                    }
+                }
                 Ok(())
             } else {
                 Err(format!("documented error {:?}, got {text}", allowed.errs))
@@ -135,11 +142,11 @@ fn lexicase_errors(g: &mut Xo, seed: u64, rep: &mut Report) {
     rep.eval();
     rep.count(&format!("Lexicase(errors):{}", out.kind()));
     let allowed = if n == 0 {
-        Allowed { may_ok: false, errs: vec!["EmptyPopulation"] }
+        Allowed { may_ok: false, errs: vec!["EmptyPopulation"], sizes: None }
     } else if c <= available {
-        Allowed { may_ok: true, errs: vec![] }
+        Allowed { may_ok: true, errs: vec![], sizes: None }
     } else {
-        Allowed { may_ok: true, errs: vec!["MissingTestCase"] }
+        Allowed { may_ok: true, errs: vec!["MissingTestCase"], sizes: None }
     };
     if let Err(why) = judge(&out, &allowed) {
         rep.violation(format!("C06/Lexicase(errors)/{}", aspect(&out)), || {
